@@ -126,8 +126,9 @@ def run_calc(case, drv):
             res.fail(f'split: fibre of {L} m is longer than max_length {hi} m but is not split')
         if L > hi and target <= hi and length > hi * (1 + 1e-12):
             res.fail(f'split: spans of {length} m are longer than max_length {hi} m')
-        if L < hi and n != 1:
-            res.fail(f'split: fibre of {L} m shorter than max_length {hi} m is split into {n}')
+        # (a fibre shorter than max_length that is split anyway is not excluded by the statement: counted only; the
+        # exact count is under correspondence above)
+        res.stats['calc_split_below_max'] = int(L < hi and n != 1)
     elif target <= hi:
         res.fail(f'split: calculate_new_length raised ZeroDivisionError for L={L}, bounds=({lo},{hi}), target={target}')
     res.nontrivial = L >= hi
@@ -144,6 +145,16 @@ def _load(case, topo=None):
 
 
 LAST_MID = {}       # uid -> record of every fibre right after add_missing_elements_in_network (last design_impl call)
+LAST_TB = []        # function names of the traceback of the exception the last design_impl call ended with
+
+
+def raman_estimate_class(case, err):
+    """class of a design that raised: the open finding raman-gain-before-estimate only for its documented topologies AND
+    when the exception comes out of estimate_raman_gain -> dbm2watt; everything else is unlisted"""
+    if (err == 'TypeError' and G.raman_before_estimate_topology(case)
+            and 'estimate_raman_gain' in LAST_TB and 'dbm2watt' in LAST_TB):
+        return 'raman-gain-before-estimate'
+    return 'unlisted'
 
 
 def design_impl(case, eq, net):
@@ -153,29 +164,44 @@ def design_impl(case, eq, net):
     seen = []
     orig = NW.split_fiber
 
-    def spy(network, fiber, bounds, target_length):
-        seen.append((bounds.start, bounds.stop, target_length))
-        return orig(network, fiber, bounds, target_length)
+    import inspect
+    sig = inspect.signature(orig)
+
+    def spy(*a, **k):
+        # by parameter NAME, whatever the order or number of the other parameters
+        try:
+            b = sig.bind(*a, **k).arguments
+            seen.append((b['bounds'].start, b['bounds'].stop, b['target_length']))
+        except (TypeError, KeyError, AttributeError):
+            pass
+        return orig(*a, **k)
     orig_attr = NW.add_missing_fiber_attributes
     LAST_MID.clear()
+    del LAST_TB[:]
 
-    def spy_attr(network, equipment):
+    def spy_attr(*a, **k):
         # the fibres as add_missing_elements_in_network left them (before connector defaults, EOL and padding)
         from gnpy.core import elements as E
-        for n in network.nodes():
-            if isinstance(n, E.Fiber):
-                LAST_MID[n.uid] = G.record(n)
-        objs, _ = G.chains_of(network, case)
-        LAST_MID['__chains__'] = [None if o is None else [(G.kind_of(n) if G.kind_of(n) != 'raman' else 'fiber', n.uid)
-                                                            for n in o] for o in objs]
-        return orig_attr(network, equipment)
+        network = k.get('network', a[0] if a else None)
+        try:
+            for n in network.nodes():
+                if isinstance(n, E.Fiber):
+                    LAST_MID[n.uid] = G.record(n)
+            objs, _ = G.chains_of(network, case)
+            LAST_MID['__chains__'] = [None if o is None else [(G.kind_of(n) if G.kind_of(n) != 'raman' else 'fiber', n.uid)
+                                                                for n in o] for o in objs]
+        except Exception:      # noqa: BLE001 - the snapshot must never disturb the design; a missing snapshot is counted
+            LAST_MID.clear()
+        return orig_attr(*a, **k)
     NW.split_fiber = spy
     NW.add_missing_fiber_attributes = spy_attr
     try:
         designed_network(eq, net)
         err = None
     except Exception as e:        # noqa: BLE001 - every exception is mapped to its kind and compared
+        import traceback
         err = err_kind(e)
+        LAST_TB.extend(f.name for f in traceback.extract_tb(e.__traceback__))
     finally:
         NW.split_fiber = orig
         NW.add_missing_fiber_attributes = orig_attr
@@ -273,10 +299,8 @@ def run_design(case, drv):
             return res
         # monitor: the property demands that every well-formed topology is designed
         if err is not None:
-            cls = 'unlisted'
-            if err == 'TypeError' and case.get('has_raman'):
-                cls = 'raman-gain-before-estimate'
-            res.fail(f'design raised: designed_network failed with {err} on a well-formed topology', cls=cls)
+            res.fail(f'design raised: designed_network failed with {err} on a well-formed topology',
+                     cls=raman_estimate_class(case, err))
         res.nontrivial = True
         res.stats.update({'design': 1, f'design_error_{err}': 1})
         return res
@@ -306,6 +330,16 @@ def run_design(case, drv):
 
     # ---- monitor: the statement on the designed DiGraph ------------------------------------------------------------------
     st = monitor_design(res, case, eq, net, pre, post, ends, reach_before, hi)
+    # the two hooks into the implementation must have been reached when a fibre was split; a harness that lost its hooks
+    # must not pass silently (correspondence side: the monitor above does not depend on them except for the snapshot)
+    st['spy_split_fiber_not_called'] = int(bool(st['split_fibres']) and seen_bounds is None)
+    st['spy_fiber_attributes_not_called'] = int('__chains__' not in LAST_MID)
+    if st['split_fibres'] and seen_bounds is None:
+        res.mismatch('hook split_fiber(network, fiber, bounds, target_length)', 'not called although a fibre was split',
+                     'called')
+    if st['split_fibres'] and '__chains__' not in LAST_MID:
+        res.mismatch('hook add_missing_fiber_attributes(network, equipment)', 'not called although a fibre was split',
+                     'called')
     monitor_multiband(res, case, eq, net, post, st)
     res.nontrivial = bool(st['inserted_amps'] or st['split_fibres'] or st['padded_spans'])
     res.stats.update(st)
@@ -315,11 +349,55 @@ def run_design(case, drv):
     return res
 
 
+def align(p, q):
+    """which records of the designed line `q` stand for each input element of `p`, by POSITION: a Fused / user amplifier
+    is the record with its uid; an input fibre is the run of consecutive fibre records - separated only by inserted
+    amplifiers - whose lengths add up to its length (how sub-spans are named is not looked at). Returns (list of record
+    lists, None where an input element is not found in order; the records of q that are neither found input elements nor
+    inserted amplifiers)"""
+    in_uids = {o['uid'] for o in p}
+
+    def inserted(r):
+        return r['kind'] in AMP and r['uid'] not in in_uids
+    out, k = [], 0
+    for o in p:
+        while k < len(q) and inserted(q[k]):
+            k += 1
+        if o['kind'] not in ('fiber', 'raman'):
+            if k < len(q) and q[k]['uid'] == o['uid'] and q[k]['kind'] == o['kind']:
+                out.append([q[k]])
+                k += 1
+            else:
+                out.append(None)
+            continue
+        parts, total, kk = [], 0.0, k
+        while kk < len(q):
+            r = q[kk]
+            if inserted(r):
+                kk += 1
+                continue
+            if r['kind'] not in ('fiber', 'raman') or (r['uid'] in in_uids and r['uid'] != o['uid']):
+                break
+            parts.append(r)
+            total += r['length']
+            kk += 1
+            if total >= o['length'] * (1 - 1e-9):
+                break
+        if parts:
+            out.append(parts)
+            k = kk
+        else:
+            out.append(None)
+    rest = [r['uid'] for r in q[k:] if not inserted(r)]
+    return out, rest
+
+
 def monitor_design(res, case, eq, net, pre, post, ends, reach_before, max_length):
     from gnpy.core import elements as E
     sp = case['span']
     st = {'inserted_amps': 0, 'split_fibres': 0, 'padded_spans': 0, 'amp_to_amp_spans': 0, 'user_amps': 0,
-          'fibres': 0, 'fused': 0, 'raman_spans_exempt': 0, 'split_with_att_in_or_lumped': 0, 'split_lumped_losses': 0}
+          'fibres': 0, 'fused': 0, 'raman_spans_exempt': 0, 'split_with_att_in_or_lumped': 0, 'split_lumped_losses': 0,
+          'split_total_loss_snapshot_missing': 0, 'split_below_max_length': 0, 'fused_edge_spans_below_padding': 0}
     uids = [n.uid for n in net.nodes()]
     if len(uids) != len(set(uids)):
         dup = sorted({u for u in uids if uids.count(u) > 1})
@@ -365,23 +443,23 @@ def monitor_design(res, case, eq, net, pre, post, ends, reach_before, max_length
         if ends[i] is None or ends[i].uid != ch['dst']:
             res.fail(f'reachability: the line from {ch["src"]} no longer ends at {ch["dst"]}')
         p, q = pre[i], post[i]
-        # original order: the input elements (fibres by base uid) in the same order
-        seq = []
-        for r in q:
-            b = G.base_uid(r['uid'])
-            if any(b == o['uid'] for o in p) and (not seq or seq[-1] != b):
-                seq.append(b)
-        if seq != [o['uid'] for o in p]:
-            res.fail(f'order: input elements {[o["uid"] for o in p]} appear as {seq} after design')
+        # original order: every input element is found again, in the input order, with only inserted amplifiers in between
+        # (sub-spans of a fibre are recognised by position and length, not by their names)
+        parts_of, rest = align(p, q)
+        if any(x is None for x in parts_of) or rest:
+            res.fail(f'order: input elements {[o["uid"] for o in p]} appear as {[r["uid"] for r in q]} after design')
+            continue
         st['user_amps'] += sum(1 for o in p if o['kind'] in AMP)
         st['inserted_amps'] += sum(1 for r in q if r['kind'] in AMP) - sum(1 for o in p if o['kind'] in AMP)
+        orig_att = {}
         # split: equal spans, same length and loss in total
-        for o in p:
+        for o, parts in zip(p, parts_of):
             if o['kind'] not in ('fiber', 'raman'):
                 continue
-            parts = [r for r in q if r['kind'] in ('fiber', 'raman') and G.base_uid(r['uid']) == o['uid']]
+            for j, r in enumerate(parts):
+                orig_att[r['uid']] = o['att_in'] if j == 0 else 0.0     # the input attenuation sits at the fibre's input
             L = o['length']
-            if len(parts) == 1 and parts[0]['uid'] == o['uid']:
+            if len(parts) == 1:
                 if L > max_length:
                     res.fail(f'split: fibre {o["uid"]} of {L} m exceeds max_length {max_length} m and is not split')
                 if abs(parts[0]['length'] - L) > 1e-9 * L:
@@ -389,9 +467,6 @@ def monitor_design(res, case, eq, net, pre, post, ends, reach_before, max_length
                 continue
             st['split_fibres'] += 1
             n = len(parts)
-            names = [r['uid'] for r in parts]
-            if names != [f'{o["uid"]}_({k}/{n})' for k in range(1, n + 1)]:
-                res.fail(f'split: spans of {o["uid"]} are named {names[:4]}')
             lens = [r['length'] for r in parts]
             if max(lens) - min(lens) > 1e-9 * L:
                 res.fail(f'split: spans of {o["uid"]} are not equal: {lens[:4]}')
@@ -410,10 +485,19 @@ def monitor_design(res, case, eq, net, pre, post, ends, reach_before, max_length
                              f'original fibre {orig:.6f} dB (att_in {o["att_in"]}, lumped {[x[1] for x in o["lumps"]]})')
                 st['split_with_att_in_or_lumped'] += int(o['att_in'] != 0 or bool(o['lumps']))
                 st['split_lumped_losses'] += len(o['lumps'])
+            else:
+                # the snapshot between completion and padding is missing (the spy was not called): without it only a
+                # lower bound can be judged here - padding may only have ADDED input attenuation
+                st['split_total_loss_snapshot_missing'] += 1
+                body = sum(r['loss_coef'] * r['length'] + r['att_in'] + sum(x[1] for x in r['lumps']) for r in parts)
+                orig = o['loss_coef'] * L + o['att_in'] + sum(x[1] for x in o['lumps'])
+                if body < orig - 1e-9 * max(1.0, orig):
+                    res.fail(f'split: spans of {o["uid"]} carry {body:.6f} dB of fibre loss + att_in + lumped losses, the '
+                             f'original fibre {orig:.6f} dB')
             if max(lens) > max_length * (1 + 1e-12):
                 res.fail(f'split: spans of {o["uid"]} ({max(lens)} m) still exceed max_length {max_length} m')
-            if L < max_length and n > 1:
-                res.fail(f'split: fibre {o["uid"]} of {L} m (< max_length) was split into {n}')
+            # (a fibre shorter than max_length that is split anyway is not excluded by the statement: counted)
+            st['split_below_max_length'] += int(L < max_length)
         # padding on every amplifier-to-amplifier span (Raman spans exempt)
         span = None
         for r in q:
@@ -424,14 +508,20 @@ def monitor_design(res, case, eq, net, pre, post, ends, reach_before, max_length
                         st['raman_spans_exempt'] += 1
                     elif any(x['kind'] == 'fiber' for x in span):
                         loss = sum(G.rec_loss(x) for x in span)
+                        padded = any(x['kind'] == 'fiber' and x['att_in'] > orig_att.get(x['uid'], 0.0) + 1e-12
+                                     for x in span)
+                        touched = any(x['kind'] == 'fiber' and abs(x['att_in'] - orig_att.get(x['uid'], 0.0)) > 1e-12
+                                      for x in span)
                         if loss < sp['padding'] - 1e-9:
-                            edge_fused = span[0]['kind'] == 'fused' or span[-1]['kind'] == 'fused'
+                            # the open finding is a span that begins or ends with a Fused and was NOT padded at all; a
+                            # span that did receive padding, but not enough, is something else
+                            edge_fused = (span[0]['kind'] == 'fused' or span[-1]['kind'] == 'fused') and not touched
+                            st['fused_edge_spans_below_padding'] += int(edge_fused)
                             res.fail(f'padding: span {[x["uid"] for x in span]} between two amplifiers has '
-                                     f'{loss:.6f} dB < padding {sp["padding"]} dB',
+                                     f'{loss:.6f} dB < padding {sp["padding"]} dB'
+                                     + ('' if not touched else ' although the input attenuation was changed'),
                                      cls='fused-edge-span-unpadded' if edge_fused else 'unlisted')
-                        o_att = {o['uid']: o['att_in'] for o in p if o['kind'] == 'fiber'}
-                        if any(x['kind'] == 'fiber' and x['att_in'] > o_att.get(G.base_uid(x['uid']), 0.0) + 1e-12
-                               for x in span):
+                        if padded:
                             st['padded_spans'] += 1
                 span = []
             elif span is not None:
@@ -497,9 +587,9 @@ def run_malformed(case, drv):
     recs = [G.record(n) for n in []]
     a = drv.ask('c08.design', **model_chain(case, ch, recs, lo, hi, target, connected=False))
     res.cmp_exact('designed_network.error(malformed)', err, a.get('error'))
-    if err != 'NetworkTopologyError':
-        res.fail(f'malformed accepted: a topology with a {case["what"]} line element gave {err}, expected '
-                 'NetworkTopologyError')
+    # monitor: the topology must be rejected; WHICH error it is rejected with is compared with the model above
+    if err is None:
+        res.fail(f'malformed accepted: a topology with a {case["what"]} line element was designed')
     res.nontrivial = True
     res.stats.update({'malformed': 1, f'malformed_{case["what"]}': 1, f'malformed_error_{err}': 1})
     return res
@@ -522,9 +612,8 @@ def run_lump_boundary(case, drv):
     lo, hi, target = G.split_bounds(c['span'])
     a = drv.ask('c08.design', **model_chain(c, ch, recs, lo, hi, target))
     res.cmp_exact('designed_network.error(lump on span boundary)', err, a.get('error'))
-    if err != 'NetworkTopologyError':
-        res.fail(f'malformed accepted: a lumped loss exactly on a sub-span boundary gave {err}, expected '
-                 'NetworkTopologyError')
+    if err is None:
+        res.fail('malformed accepted: a lumped loss exactly on a sub-span boundary was designed')
     res.nontrivial = True
     res.stats.update({'malformed': 1, 'malformed_lump-on-boundary': 1, f'malformed_error_{err}': 1})
     return res
